@@ -26,6 +26,7 @@ from engines.calcworld import ALL_WORLDS, CHEM, CRYSTALS, QUICK_WORLDS, Pool, Si
 OM2 = {"default": {}, "small": {"large_om2": 0.0}, "large": {"large_om2": float("inf")}}
 SCRIBBLES = ("scale", "zero", "nan", "add")
 BADKINDS = ("nanT0", "infT0", "shortT1", "longT0", "nanV")
+AUX = ("omegalist1", "omegalist2", "tags2preene", "preene2betafree", "tracer", "str")
 COMPONENTS = ("gfcalc", "thermo", "kinetic", "vkinetic", "taylor", "yaml:crystal", "yaml:groupop",
               "yaml:pairstate", "yaml:clustersite", "yaml:cluster", "yaml:vtk", "vtkdict")
 
@@ -196,10 +197,10 @@ class Run(RunBase):
         # op kind by weight (swarm: the per-run weights are jittered by the world's mix seed)
         if c13:
             table = (("call", 34), ("scribble", 8), ("clearcache", 4), ("regen", 8), ("regrid", 5), ("foreign", 5),
-                     ("badcall", 4), ("fork", 10), ("refork", 5), ("supercells", 4), ("component", 13))
+                     ("badcall", 4), ("fork", 10), ("refork", 5), ("supercells", 4), ("component", 13), ("aux", 4))
         else:
             table = (("call", 40), ("scribble", 12), ("clearcache", 5), ("regen", 9), ("regrid", 5), ("foreign", 5),
-                     ("badcall", 5), ("save", 10), ("restart", 9))
+                     ("badcall", 5), ("save", 10), ("restart", 9), ("aux", 5))
         mix = random.Random(self.w["pool_seed"] ^ 0x5eed)
         weights = [wt * mix.choice((0.3, 1.0, 1.0, 2.0)) for _, wt in table]
         kind = rng.choices([k for k, _ in table], weights=weights)[0]
@@ -224,6 +225,8 @@ class Run(RunBase):
             return {"op": "badcall", "k": rng.randrange(npool), "kind": rng.choice(BADKINDS)}
         if kind == "fork":
             return self.gen_fork(rng)
+        if kind == "aux":
+            return {"op": "aux", "what": rng.choice(AUX), "k": rng.randrange(npool), "how": rng.choice(SCRIBBLES)}
         if kind == "refork":
             return {"op": "refork", "slot": rng.choice("abc"), "libver": rng.choice(("earliest", "latest")),
                     "driver": rng.choice(("fileobj", "core")), "keep_open": rng.random() < 0.3}
@@ -317,6 +320,8 @@ class Run(RunBase):
         # C13: original vs copy
         if self.twin is not None:
             a, b = results
+            if len(self.calc.GFvalues) != len(self.twin.GFvalues):
+                self.probes["twin-cache-size-differs"] += 1     # not demanded by C13: counted only
             if a[0] != b[0] or (a[0] == "exc" and a[1] != b[1]):
                 self.fail("twin-exception", "Lij(input {} [{}], {}): original {} but reloaded copy {}".format(
                     k, self.pool.kind(k), mode, a[:2], b[:2]))
@@ -367,6 +372,36 @@ class Run(RunBase):
             self.faults["scribble-on-returned-array"] += 1
             self.scribbled = True
         return done
+
+    def op_aux(self, index, op):
+        """The caller uses the calculator's other public queries between Lij calls and scribbles on what they
+        hand out (jump-type lists, prefactor/energy arrays): all documented as fresh objects, so nothing may
+        change for later calls."""
+        what = op["what"]
+        for calc, caller in self.targets():
+            arrays = []
+            if what in ("omegalist1", "omegalist2"):
+                arrays = [calc.omegalist(1 if what.endswith("1") else 2)[1]]
+            elif what == "tags2preene":
+                arrays = list(calc.tags2preene(self.pool.usertagdict(op["k"])).values())
+            elif what == "preene2betafree":
+                arrays = list(self.pool.arrays(calc, op["k"]))
+            elif what == "tracer":
+                td = calc.tags2preene(self.pool.usertagdict(op["k"]))
+                arrays = list(calc.maketracerpreene(**td).values())
+            else:
+                str(calc)
+            for a in arrays:
+                a = np.asarray(a) if not isinstance(a, np.ndarray) else a
+                if a.size and a.flags.writeable:
+                    if op["how"] == "zero":
+                        a[...] = 0
+                    elif op["how"] == "nan" and a.dtype.kind == "f":
+                        a[...] = np.nan
+                    else:
+                        a[...] = a * 3 + 1
+        self.faults["scribble-on-auxiliary-result"] += 1
+        return "aux:" + what
 
     def op_clearcache(self, index, op):
         for calc, _ in self.targets():
